@@ -218,8 +218,7 @@ type mstmt struct {
 	hasLong   map[int]bool
 	types     []byte // type block of the last well-formed execute carrying types (nil: unknown)
 	tainted   bool   // a failed bind after a valid first parameter happened since the last successful execute/reset
-	stale     sqllex.Param
-	failedAgo bool // some failed execution since the last successful one (for the non-trivial rule)
+	failedAgo bool   // some failed execution since the last successful one (for the non-trivial rule)
 }
 
 func template(shape, n int, marker string) string {
@@ -348,13 +347,6 @@ func buildBad(id uint32, ps []sqllex.Param, kind string) (payload []byte, taints
 	return p, true
 }
 
-func staleFirst(ps []sqllex.Param) sqllex.Param {
-	if ps[0].IsNull() {
-		return sqllex.Param{Kind: "int", Type: sqllex.TLong, Bits: 424242}
-	}
-	return ps[0]
-}
-
 // sendLong sends COM_STMT_SEND_LONG_DATA followed by COM_PING and reports
 // whether the server answered the long-data command with an ERR packet (the
 // protocol defines no response; Gaea sends ERR on failure). No timing involved:
@@ -478,8 +470,11 @@ func checkCase(c c16Case) (o pbt.Outcome) {
 			}
 			if gotErr {
 				// Gaea rejected long data for a live statement and a valid parameter index
-				if st.tainted && pi == 0 {
-					classify("C16-F1", fmt.Sprintf("op %d: send_long_data for parameter 0 of statement %s is rejected because the value bound by the earlier failed execute is still there", oi, st.marker))
+				if st.tainted {
+					// the only way a live statement and a valid index are refused is a slot that already holds a
+					// non-long value; after the first failed bind later failed executes (malformed, or well-formed
+					// but shifted) can leave one in any slot
+					classify("C16-F1", fmt.Sprintf("op %d: send_long_data for parameter %d of statement %s is rejected because a value bound by an earlier failed execute is still there", oi, pi, st.marker))
 					continue
 				}
 				o.Violation = fmt.Sprintf("op %d: send_long_data(stmt %s, param %d) on a live statement was answered with an error", oi, st.marker, pi)
@@ -608,10 +603,8 @@ func checkCase(c c16Case) (o pbt.Outcome) {
 			label("malformed_" + op.Bad)
 			st.types = nil
 			st.failedAgo = true
-			if taints && !st.tainted {
-				// a later failed execute does not replace the value: the occupied slot is skipped again
+			if taints {
 				st.tainted = true
-				st.stale = staleFirst(op.Vals[:st.n])
 			}
 
 		case "exec":
@@ -664,6 +657,7 @@ func checkCase(c c16Case) (o pbt.Outcome) {
 				}
 				// rejected by the proxy: no statement ran; never a violation by itself
 				label("wellformed_execute_rejected")
+				st.types = nil
 				if wasTainted {
 					classify("C16-F1", fmt.Sprintf("op %d: well-formed execute of %s rejected (%v) after a failed execute left parameter 0 bound", oi, st.marker, r.Err))
 				}
@@ -694,9 +688,9 @@ func checkCase(c c16Case) (o pbt.Outcome) {
 					return
 				}
 			}
-			if r.Err == nil {
-				st.types = types
-			}
+			// the statement text reached the backend, so the packet was parsed completely: the server
+			// remembers this type block whether or not the backend then failed (as libmysqlclient assumes)
+			st.types = types
 			st.tainted, st.failedAgo = false, r.Err != nil
 		}
 	}
@@ -712,35 +706,23 @@ func describe(ps []sqllex.Param) string {
 	return "[" + strings.Join(parts, "; ") + "]"
 }
 
-// staleShows is the classifier of C16-F1: the statement's structure is intact,
-// and parameter 0 shows the value bound by the earlier failed execute (or that
-// value followed by the long data sent since) instead of this execution's value.
+// staleShows is the classifier of C16-F1. It is only consulted for a statement
+// that had a failed bind since its last successful execute or reset. From then
+// on the slots of Stmt.args hold leftovers that the next executes skip: the
+// first value of the failed packet, first values of later failed packets read
+// for the next free slot, long data sent in between (kept because the failed
+// execute did not reset), and this execution's own values shifted accordingly.
+// Predicting the exact mixture would mean re-implementing bindStmtArgs, so the
+// classifier demands what the root cause cannot break: the statement is the
+// template with exactly one literal per placeholder (only values differ).
 func staleShows(st *mstmt, got string, m sqllex.Mode, want []sqllex.Param) bool {
-	sawStale := false
 	alt := func(k int, _ sqllex.Param, gt []sqllex.Token, j int) int {
-		l, ok := sqllex.TakeLiteral(gt, j)
-		if !ok {
-			return 0
+		if l, ok := sqllex.TakeLiteral(gt, j); ok {
+			return l.N
 		}
-		if k == 0 {
-			if ok, _ := sqllex.Denotes(l, st.stale); ok {
-				sawStale = true
-				return l.N
-			}
-			// long data sent after the failure is appended to a stale string/temporal value
-			if b, isStr := l.Bytes(); isStr && want[0].Kind == "str" && strings.HasSuffix(string(b), string(want[0].Bytes)) {
-				head := sqllex.Literal{Tok: sqllex.Token{Kind: sqllex.Str, Val: b[:len(b)-len(want[0].Bytes)]}, N: 1}
-				if ok, _ := sqllex.Denotes(head, st.stale); ok {
-					sawStale = true
-					return l.N
-				}
-			}
-			return 0
-		}
-		return l.N // later parameters are shifted by the skipped one: any single literal
+		return 0
 	}
-	r := sqllex.Match(st.template, got, m, want, alt)
-	return r.OK && sawStale
+	return sqllex.Match(st.template, got, m, want, alt).OK
 }
 
 func TestC16History(t *testing.T) {
